@@ -517,6 +517,7 @@ static int cmd_replay(int argc, char **argv) {
 	if (o.have_res && o.res.sample[0]) printf("PROGRAM\n%s\n", o.res.sample);
 	if (!RC.verbose && (o.kind == 1 || o.kind == 2 || o.kind == 4)) {
 		FILE *f = fopen(errpath, "r"); char line[512]; int n = 0;
+		printf("STDERR\n");
 		while (f && fgets(line, sizeof line, f) && n++ < 60) fputs(line, stdout);
 		if (f) fclose(f);
 	}
@@ -546,6 +547,7 @@ static int cmd_one(int argc, char **argv) {
 	}
 	if (!RC.verbose && (o.kind == 1 || o.kind == 2 || o.kind == 4)) {
 		FILE *f = fopen(errpath, "r"); char line[512]; int n = 0;
+		printf("STDERR\n");
 		while (f && fgets(line, sizeof line, f) && n++ < 60) fputs(line, stdout);
 		if (f) fclose(f);
 	}
